@@ -224,8 +224,16 @@ func ruleC02c(c *Ctx, rule string) {
 	pi := c.P.Func("(*z.rowStore).processInserts")
 	ap, _ := ingestApplier(c.P)
 	home := ap != nil && pi != nil && privateHelperOf(c.P, ap, pi)
-	okM := home && len(mu) == 1 && mu[0] == stableName(ap)
-	okU := home && len(up) == 1 && up[0] == stableName(ap)
+	allIn := func(xs []string) bool {
+		for _, x := range xs {
+			if ap == nil || x != stableName(ap) {
+				return false
+			}
+		}
+		return len(xs) > 0
+	}
+	okM := home && len(mu) == 1 && allIn(mu)
+	okU := home && allIn(up) // how often it is applied there is C01.a's business
 	c.check(rule, "only processInserts records memstore offsets", token.NoPos, okM, "single writer (processInserts or its private helper)", "memstore.offsetsBySource entries are written in: "+joinS(mu)+" — offsets and rows can get out of step")
 	c.check(rule, "only processInserts updates the memstore tree", token.NoPos, okU, "single writer (processInserts or its private helper)", "the memstore tree is updated in: "+joinS(up))
 }
@@ -474,6 +482,9 @@ func init() {
 		NotDecided:  []string{"behaviour at actual crash points and fsync semantics of the OS/filesystem", "the WAL library itself", "multi-round crash histories", "one WAL entry with array values becomes several memstore inserts carrying the same offset (reading note)"},
 		Assumptions: []string{"os.Rename is atomic on one filesystem", "sync.RWMutex semantics"},
 		Rules: []func(*Ctx){func(c *Ctx) { ruleC02a(c, "C02.a") }, func(c *Ctx) { ruleC02b(c, "C02.b") }, func(c *Ctx) { ruleC02c(c, "C02.c") }, func(c *Ctx) {
+			c.describe("C02.k", "dom: a WAL entry (one offset) becomes exactly one row store insert — (*table).doInsert calls rowStore.insert once, outside any loop, so that the offset and all values of the point are applied in one lock region (see C01.a) and no flush can persist the offset with part of the point")
+			ruleOneInsertPerPoint(c, "C02.k")
+		}, func(c *Ctx) {
 			c.describe("C02.d", "flow: header offsets belong to the flushed rows (see C03.d)")
 			ruleC03d(c, "C02.d")
 		}, func(c *Ctx) { ruleC02e(c, "C02.e") }, func(c *Ctx) { ruleC02f(c, "C02.f") }, func(c *Ctx) { ruleLockRegions(c, "C02.g") }, func(c *Ctx) {
